@@ -21,7 +21,9 @@ class LoopSpec:
 
     def __init__(self, invariant, heap='havoc', decreases=None, types=None, header=None, lemmas=None, body_check=None,
                  keeps_owned=False, mk_heap=None, case_facts=None, owned=None, trusted_invariant=False,
-                 iter_unmodified='prove'):
+                 iter_unmodified='prove', entry_check=None):
+        self.entry_check = entry_check   # entry_check(L) -> obligations about the state in which the loop is entered
+                                         # (discharged even when the invariant itself is trusted)
         self.iter_unmodified = iter_unmodified    # 'prove': the iterated list is shown unmodified by each iteration;
                                                   # 'assume': trusted (callbacks do not touch the list being walked)
         self.trusted_invariant = trusted_invariant   # the invariant is assumed at the head but not proved (listed)
@@ -124,6 +126,9 @@ def inductive_loop(ip, frame, st, spec, seq, tag=None):
             ctx.oblige(f'{tag}.establish.{label}', f, kind='loop-establish')
     else:
         ctx.note(f'{tag}: state-typing invariant assumed, not proved')
+    if spec.entry_check is not None:
+        for label, f in _labelled(spec.entry_check(view0)):
+            ctx.oblige(f'{tag}.entry.{label}', f, kind='loop-establish')
     # havoc
     body_nodes = list(st.body)
     names = assigned_names(body_nodes)
